@@ -110,6 +110,7 @@ def sliceElementEnd (n : PTree) := nthChild n (is .Value) 1
 def fieldSuffixName (n : PTree) := child n (is .Identifier)
 def bitsValueList (n : PTree) := child n (is .ValueList)
 def listValueList (n : PTree) := child n (is .ValueList)
+def listType (n : PTree) := child n (isAny typeKinds)
 def valueListValues (n : PTree) := children n (is .Value)
 def dagOperator (n : PTree) := child n (is .DagArg)
 def dagArgList (n : PTree) := child n (is .DagArgList)
